@@ -55,7 +55,7 @@ class BuilderSystem:
         if op[0] == "enter":
             st.ctxinfo.append((op[1][0], str(getattr(st.g, "distance_mode", None))))
         exc, chunks = st.call(op)
-        if op[0] in ("exit", "exit!") :
+        if op[0] in ("exit", "exit!", "exit!k"):
             if st.ctxinfo:
                 st.ctxinfo.pop()
         if op[0] == "enter" and exc is not None and len(st.ctxinfo) > len(st.ctx):
